@@ -181,6 +181,12 @@ func parentMain(fl *evid.Flags, only string) int {
 				werr = fmt.Errorf("watchdog %v expired", limit)
 				<-done
 			}
+			// a killed child cannot remove its port state files (ids are vf<pid>-...)
+			if left, _ := filepath.Glob(filepath.Join(portStateDir, fmt.Sprintf("vf%d-*", cmd.Process.Pid))); len(left) > 0 {
+				for _, f := range left {
+					_ = os.Remove(f)
+				}
+			}
 			if p, err := evid.ReadPartial(sp.Out); err == nil {
 				mergeChild(run, p, sp.Mode)
 			} else if werr == nil {
